@@ -7,7 +7,8 @@ CONSTANTS MaxOps,    \* operations per run (closes that release the remaining vi
           MCKinds,   \* backing stores explored
           Caps,      \* capacities
           Len0s,     \* pre-existing lengths
-          Sizes,     \* lengths offered to write / extend
+          Sizes,     \* lengths offered to write
+          ExtExact, ExtNoHint, ExtUnder, ExtOver,   \* lengths yielded by the iterator given to extend, per kind of size_hint
           AdvSizes,  \* lengths for advance / scribble
           Avails,    \* bytes available in the reader of read_buffer
           CapAts,    \* arguments of cap_at
@@ -23,7 +24,9 @@ NSetup == /\ phase = "idle"
                l <= c /\ Step([a |-> "setup", kind |-> k, cap |-> c, len0 |-> l, mem0 |-> Mem0(c, l)])
 NOpen == ops < MaxOps /\ \E ks \in Chains : Step([a |-> "open", ks |-> ks])
 NWrite == ops < MaxOps /\ \E n \in Sizes : Step([a |-> "write", bs |-> Fresh(n)])
-NExtend == ops < MaxOps /\ \E n \in Sizes : Step([a |-> "extend", bs |-> Fresh(n)])
+ExtCases == {<<n, "exact">> : n \in ExtExact} \cup {<<n, "nohint">> : n \in ExtNoHint}
+            \cup {<<n, "under">> : n \in ExtUnder} \cup {<<n, "over">> : n \in ExtOver}
+NExtend == ops < MaxOps /\ \E c \in ExtCases : Step([a |-> "extend", bs |-> Fresh(c[1]), it |-> c[2]])
 NAdvance == ops < MaxOps /\ \E n \in AdvSizes : Step([a |-> "advance", bs |-> Fresh(n)])
 NScribble == ops < MaxOps /\ \E n \in AdvSizes : n > 0 /\ Step([a |-> "scribble", bs |-> Fresh(n)])
 NClose == Step([a |-> "close"])                      \* always possible: every view is released in the end
